@@ -201,3 +201,35 @@ pub fn hex(data: &[u8]) -> String {
     }
     s
 }
+
+
+// ---------------------------------------------------------------------------
+// watchdog: every unit of work calls `tick`; when nothing ticks for PFV_WATCHDOG_S seconds
+// (default 600) the process names the unit in flight on stdout and exits with code 4, so that a
+// call into the code under test that never returns is reported instead of stalling a check
+pub static TICKS: std::sync::atomic::AtomicU64 = std::sync::atomic::AtomicU64::new(0);
+pub static IN_FLIGHT: std::sync::Mutex<String> = std::sync::Mutex::new(String::new());
+
+pub fn tick(desc: impl FnOnce() -> String) {
+    TICKS.fetch_add(1, std::sync::atomic::Ordering::Relaxed);
+    if let Ok(mut g) = IN_FLIGHT.try_lock() {
+        *g = desc();
+    }
+}
+
+pub fn start_watchdog() {
+    let limit: u64 = std::env::var("PFV_WATCHDOG_S").ok().and_then(|s| s.parse().ok()).unwrap_or(600);
+    std::thread::spawn(move || {
+        let (mut last, mut stuck) = (0u64, 0u64);
+        loop {
+            std::thread::sleep(std::time::Duration::from_secs(1));
+            let now = TICKS.load(std::sync::atomic::Ordering::Relaxed);
+            if now == last { stuck += 1; } else { stuck = 0; last = now; }
+            if now > 0 && stuck >= limit {
+                let d = IN_FLIGHT.lock().map(|g| g.clone()).unwrap_or_default();
+                println!("{}", serde_json::json!({"hang": d, "seconds": limit}));
+                std::process::exit(4);
+            }
+        }
+    });
+}
